@@ -267,6 +267,13 @@ def payload_descs(tier):
     P([scalar("a", 8), payload(), array("x", 8, count=2), padding(4), scalar("z", 8)], "pl_unk_padded_tail")
     P([scalar("a", 4), size("_payload_", 12), payload(), scalar("b", 24)], "pl_siz12_tail24")
     out.append(desc("little", [SS3, E8, packet("P", [payload(), typedef("s", "SS3")])], name="pl_unk_struct_tail"))
+    # what may follow an unsized payload / body: a bit-field group made of sub-octet fields, reserved and fixed bits,
+    # an enum, several groups, a static array
+    P([scalar("h", 8), payload(), scalar("k", 4), scalar("s", 12)], "pl_unk_tail_bits")
+    P([body(), scalar("f", 3), reserved(5), scalar("crc", 16)], "body_unk_tail_bits")
+    P([payload(), fixed(5, 3), scalar("a", 13), scalar("b", 8)], "pl_unk_tail_fixed")
+    out.append(desc("little", [E3, packet("P", [scalar("h", 8), payload(), typedef("e", "E3"), scalar("r", 5), array("x", 16, count=2)])],
+                    name="pl_unk_tail_enum_array"))
     return out
 
 
